@@ -694,6 +694,12 @@ fn infer_generic_members_from_super_generics(
     };
 
     let type_decl_id = type_decl.get_id();
+    // A super type may lead back to an application of this class (`---@alias X<T> G<T>` +
+    // `---@class G: X<integer>`, `---@class G<T>: X<nil>` + `---@alias X<T> G<X<nil>>`). Remember the
+    // classes whose generic supers are being walked; the mark lives in a fork so that the lookup of
+    // the class's own members is unaffected.
+    let infer_guard = infer_guard.fork();
+    infer_guard.check(&type_decl_id).ok()?;
     if let Some(super_types) = type_index.get_super_types(&type_decl_id) {
         super_types.iter().find_map(|super_type| {
             let super_type = instantiate_type_generic(db, super_type, substitutor);
